@@ -419,7 +419,7 @@ func (in *Interp) convert(v Value, from, to types.Type) Value {
 			if a.len < n {
 				panic(in.rtPanic("cannot convert slice to array pointer: length too short"))
 			}
-			return PtrV{&Cell{kind: 2, arr: a.arr, off: a.off, n: n, t: at, born: a.arr.born}}
+			return PtrV{c: &Cell{kind: 2, arr: a.arr, off: a.off, n: n, t: at, born: a.arr.born}}
 		}
 	case PtrV:
 		// pointer <-> unsafe.Pointer <-> pointer
